@@ -124,6 +124,17 @@ INPUTS: dict[str, tuple[dict[str, str], str]] = {
         },
         "pk",
     ),
+    "T13-class-defined-in-subpackage-init": (
+        {
+            "pk/__init__.py": "from .sub import C\nfrom .sub.m import D\n",
+            "pk/sub/__init__.py": "class C:\n    def f(self) -> int:\n        return 1\n\n\ndef in_init(a: int) -> int:\n    return a\n",
+            "pk/sub/m.py": "class D:\n    pass\n",
+            "pk/a.py": "def h() -> int:\n    return 1\n",
+            "pk/zz/__init__.py": "from pk.sub import C as CZ\n",
+            "pk/zz/z.py": "def z() -> int:\n    return 1\n",
+        },
+        "pk",
+    ),
     "T9-directory-order": (
         {
             "pk/__init__.py": "from .zz.b import Bz\nfrom .aa.a import Az\n",
